@@ -413,6 +413,8 @@ class ChooseOp(IRDLOperation):
             for arg, val in zip(operations[0].operands, default_block.args, strict=True)
         }
         default_block.add_ops([result := operations[0].clone(value_mapper), YieldOp(result)])
+        # an operation that uses one value twice still takes each operand from its own block argument
+        result.operands = default_block.args
         default_region = Region(default_block)
         # Non-default
         case_regions: list[Region] = []
@@ -424,6 +426,7 @@ class ChooseOp(IRDLOperation):
                     for arg, val in zip(operation.operands, case_block.args, strict=True)
                 }
                 case_block.add_ops([result := operation.clone(value_mapper), YieldOp(result)])
+                result.operands = case_block.args
                 case_regions.append(Region(case_block))
         return ChooseOp(
             name=name,
